@@ -141,9 +141,10 @@ def distance(setmap, p1, p2):
     for pset, count in setmap.items():
         if (p1 in pset) or (p2 in pset):
             total += count
-    # The distance is undefined if neither platform uses any line.
+    # The distance is undefined if neither platform uses any line, except
+    # that a platform is always at distance zero from itself.
     if total == 0:
-        return float("nan")
+        return 0.0 if p1 == p2 else float("nan")
     d = 0
     for pset, count in setmap.items():
         if (p1 in pset) ^ (p2 in pset):
